@@ -6,7 +6,7 @@ cd /verif
 for seed in "$@"; do
   id=${seed%-*}
   checks="${CHECKS:-$id}"
-  tools/seedtest.sh seeded/$seed/patch.diff $tier $checks | while read -r c rc dur viol harness first; do
+  tools/seedtest.sh /verif/seeded/$seed/patch.diff $tier $checks | grep '^C[0-9]' | while read -r c rc dur viol harness first; do
     key=$(grep -m1 -A1 '^VIOLATION' /tmp/seedtest_$c.out | tail -1 | sed 's/^ *key=//; s/ count=.*//')
     printf "%s\t%s\t%s\t%s\t%s\t%s\t%s\n" "$seed" "$c" "$tier" "${rc#rc=}" "${viol#viol=}" "${harness#harness=}" "$key" >> seeded/results.tsv
     echo "$seed $c ${rc} ${viol} ${harness} $key" | cut -c1-200
